@@ -22,6 +22,8 @@ import (
 	"testing"
 	"time"
 
+	"github.com/VKCOM/statshouse-go"
+
 	"github.com/VKCOM/statshouse/internal/data_model"
 	"github.com/VKCOM/statshouse/internal/format"
 	"github.com/VKCOM/statshouse/internal/verifsim"
@@ -39,6 +41,8 @@ const (
 )
 
 var errW9Load = errors.New("simulated storage error")
+
+var w9RunCount int // executions in this process (GC bookkeeping only)
 
 type w9Load struct {
 	id        int // == id of the Get whose loadChunks goroutine called the loader
@@ -726,8 +730,16 @@ func (w *w9World) stepWait(d time.Duration) {
 // ---- one run ----------------------------------------------------------------------------
 
 func w9Exec(t *testing.T, r *verifsim.Run) {
-	old := debug.SetGCPercent(-1) // no GC preemption inside a burst of woken goroutines
-	defer debug.SetGCPercent(old)
+	// No GC activity inside a run: a GC cycle preempts goroutines and moves them to the global run
+	// queue, which reorders a burst of woken goroutines. The collector stays off for the whole process
+	// (this test binary runs only this world) and a full synchronous collection is done between runs.
+	if w9RunCount == 0 {
+		debug.SetGCPercent(-1)
+	}
+	if w9RunCount%16 == 0 {
+		runtime.GC()
+	}
+	w9RunCount++
 	verifsim.Bubble(t, func(t *testing.T) { w9Run(t, r) })
 	if os.Getenv("W9_DUMP") != "" {
 		for _, e := range r.Events() {
@@ -828,7 +840,14 @@ func w9Run(t *testing.T, r *verifsim.Run) {
 		var acts []act
 		for _, ld := range idle {
 			// "complete" = deliver what is missing, or (a step later) return
-			if ld.delivered == len(ld.ret) || w.mayDeliver(w.deltaBytes(ld, len(ld.ret))) {
+			if ld.delivered == len(ld.ret) {
+				// a returning load first takes its bytes off the books (waking a request that waits for
+				// memory) and then, unless it parks at after_notify, stores its chunks in the same burst:
+				// whether the woken request still sees room would depend on goroutine order
+				if w.afterNotifyArmed || w.allocWaiter() == nil {
+					acts = append(acts, act{kind: "complete", ld: ld})
+				}
+			} else if w.mayDeliver(w.deltaBytes(ld, len(ld.ret))) {
 				acts = append(acts, act{kind: "complete", ld: ld})
 			}
 		}
@@ -1039,5 +1058,11 @@ func (w *w9World) windDown(check bool) {
 }
 
 func TestVerifW9(t *testing.T) {
+	// The global statshouse client (metrics sink of the code under test) runs a goroutine outside the
+	// bubble that wakes every second; a goroutine woken by a real timer takes the scheduler's "run
+	// next" slot and can swap two simulated goroutines of a burst. Stop it (metrics are discarded).
+	if os.Getenv("VERIF_PROP") == "C23" {
+		_ = statshouse.Close()
+	}
 	verifsim.Main(t, &verifsim.World{Name: "w9_series_cache", Props: []string{"C23"}, Exec: w9Exec})
 }
